@@ -76,7 +76,7 @@ func TestCheck(t *testing.T) {
 			"the multi-schema phase did not exercise enough answers / gate toggles / re-creations / boundary configurations")
 		r.Require(r.Counter("race_rounds") >= int64(r.N(14000, 60000)), "too few answer-vs-reconfigure race rounds completed")
 		r.Require(r.Counter("idle_checks") >= int64(r.N(3, 10)), "too few idle-flow checks were decided")
-		r.Require(r.Counter("rec_recovery_checks") >= int64(r.N(10, 40)) && r.Counter("rec_fallback_checks") >= int64(r.N(8, 32)), "too few outage/recovery progress checks were decided")
+		r.Require(r.Counter("rec_recovery_checks") >= int64(r.N(10, 40)) && r.Counter("rec_fallback_checks") >= int64(r.N(8, 32)) && r.Counter("rec_fallback_limit_checks") >= int64(r.N(2, 8)), "too few outage/recovery progress checks were decided")
 		r.Require(r.Counter("allocate_reconfigurations") >= 100 && r.Counter("count_det_reconfigurations") >= 50, "too few reconfiguration steps")
 		r.Require(r.Counter("rt_acquire_replies") >= 500, "the count-strategy workers hardly ever reached the stub server")
 		r.Require(r.Counter("rt_admissions") >= 2000, "too few admissions in the real-time phase")
